@@ -1543,7 +1543,7 @@ def _plot_drip(
     )
 
     base = alt.Chart(data, title=title).encode(
-        x=alt.X(f"{snake_name_x}.mean:Q").title(name_x, padding=10),
+        x=alt.X(f"{snake_name_x}.mean:Q").title(name_x).scale(padding=10),
         y=alt.Y(f"{snake_name_y}.mean:Q").title(name_y).scale(nice=False, padding=10),
         tooltip=[
             alt.Tooltip("period_start:T", title="Period Start"),
